@@ -10,6 +10,7 @@
 #include <string>
 
 RunCtx *g_ctx;
+void tsan_collect(RunCtx &ctx);
 
 extern const Scenario scn_pfx;
 extern const Scenario scn_spki;
@@ -117,6 +118,7 @@ static J execute(const Scenario *scn, const J &plan, bool trace, const std::stri
 	cfg.trace = trace;
 	RunArg a{scn, &plan, &ctx};
 	sim_run(&cfg, task0, &a);
+	tsan_collect(ctx);
 	// allocator ledger (C18, failure-free clause)
 	bool failure_free = simalloc_failures() == 0;
 	if (simalloc_libc_free_of_sim_block())
@@ -165,6 +167,8 @@ static J execute(const Scenario *scn, const J &plan, bool trace, const std::stri
 	for (auto &kv : ctx.counters)
 		c[kv.first] = (long long)kv.second;
 	r["counters"] = c;
+	for (auto &kv : ctx.extra.o)
+		r[kv.first] = kv.second;
 	if (!ctx.notes.empty()) {
 		J n = J::arr();
 		for (auto &s : ctx.notes)
@@ -201,7 +205,7 @@ extern "C" __attribute__((used, visibility("default"))) const char *__ubsan_defa
 }
 extern "C" __attribute__((used, visibility("default"))) const char *__tsan_default_options()
 {
-	return "exitcode=0:halt_on_error=0:report_signal_unsafe=0:report_thread_leaks=0:second_deadlock_stack=1";
+	return "exitcode=0:halt_on_error=0:report_signal_unsafe=0:report_thread_leaks=0:ignore_interceptors_accesses=1:suppress_equal_stacks=0:suppress_equal_addresses=0:external_symbolizer_path=/usr/bin/llvm-symbolizer-14";
 }
 
 int main(int argc, char **argv)
